@@ -96,6 +96,24 @@ EmitVectors(n) ==
     \cup {EmitVec(ro, s, f, [B0 EXCEPT !.r = r], [A0 EXCEPT !.r = r], r) : r \in S}
     : ro \in Roles, s \in BOOLEAN, f \in Framings}}
 
+(* A Negotiator is a VALUE as well: a server builds one (xmpp.NewNegotiator /          *)
+(* websocket.Negotiator with its configuration function) and negotiates every         *)
+(* connection with it.  The header of a session carries that session's own addresses  *)
+(* and the language the application configured; nothing of the sessions negotiated    *)
+(* before.  Before the configuration function has been called for a session the       *)
+(* library knows only what the function returned when the Negotiator was built; that  *)
+(* is the language of the session's first header also when the function answers       *)
+(* differently for every session (mode "persession").                                 *)
+(* A scenario: emissions that differ only in their addresses, one after the other     *)
+(* through one Negotiator; expected: what each of them yields on its own.             *)
+SharedEmitScenario(mode, es) == [mode |-> mode, sess |-> es]
+ExpSharedEmit(sx) == [i \in DOMAIN sx.sess |-> Recovered(sx.sess[i])]
+SharedEmitScenarios ==
+  LET P == {<<[B0 EXCEPT !.r = <<1>>], A0>>, <<B0, [A0 EXCEPT !.r = <<1, 2>>]>>, <<[B0 EXCEPT !.l = "me"], [A0 EXCEPT !.l = ""]>>}
+      AS == [1..2 -> P] \cup [1..3 -> P]
+  IN {SharedEmitScenario(m, [i \in DOMAIN as |-> Norm(EmitVec(ro, s, f, as[i][1], as[i][2], lg))]) :
+        m \in {"const", "persession"}, ro \in Roles, s \in BOOLEAN, f \in Framings, lg \in {<<1>>, <<1, 3>>}, as \in AS}
+
 -----------------------------------------------------------------------------
 (* Part (b)                                                                         *)
 
